@@ -224,4 +224,131 @@ theorem fnum_group_fit (H : ApproxClosed c P) (ord : MapOrder Rat) (g : GroupedQ
     simp only [GroupedQuantity.iter, List.mem_append]
     exact Or.inr hq
 
+/-! ### `add`: sums are plain numbers, everything else is copied -/
+
+theorem fnum_tryAdd (hreg : ∀ x, P (.regular x)) {a b v : Value Rat} (h : a.tryAdd b = .ok v) : v.AllNum P := by
+  cases a <;> cases b <;> simp only [Value.tryAdd, Except.ok.injEq, reduceCtorEq] at h <;> subst h <;>
+    first | exact hreg _ | exact ⟨hreg _, hreg _⟩
+
+theorem fnum_addTo (hreg : ∀ x, P (.regular x)) {stored q n : SQuantity Rat} (h : GroupedQuantity.addTo c stored q = some n) :
+    n.value.AllNum P := by
+  unfold GroupedQuantity.addTo at h
+  split at h
+  · rename_i n' hn'
+    simp only [Option.some.injEq] at h
+    subst h
+    unfold qTryAdd at hn'
+    split at hn'
+    · cases hn'
+    · split at hn'
+      · cases hn'
+      · split at hn'
+        · cases hn'
+        · rename_i v hv
+          simp only [Except.ok.injEq] at hn'
+          subst hn'
+          exact fnum_tryAdd hreg hv
+  · cases h
+
+/-- everything a group stores satisfies `P` -/
+def GroupedQuantity.AllNum (P : Number Rat → Prop) (g : GroupedQuantity Rat) : Prop :=
+  (∀ pq q, g.known pq = some q → q.value.AllNum P) ∧ (∀ e ∈ g.unknown, e.2.value.AllNum P) ∧
+  (∀ q ∈ g.other, q.value.AllNum P) ∧ (∀ q, g.noUnit = some q → q.value.AllNum P)
+
+theorem fnum_replaceUnknown (l : List (Str × SQuantity Rat)) (key : Str) (q : SQuantity Rat)
+    (hl : ∀ e ∈ l, e.2.value.AllNum P) (hq : q.value.AllNum P) :
+    ∀ e ∈ GroupedQuantity.replaceUnknown l key q, e.2.value.AllNum P := by
+  induction l with
+  | nil => intro e he; cases he
+  | cons x rest ih =>
+    intro e he
+    unfold GroupedQuantity.replaceUnknown at he
+    split at he
+    · rcases List.mem_cons.mp he with rfl | he
+      · exact hq
+      · exact hl e (List.mem_cons_of_mem _ he)
+    · rcases List.mem_cons.mp he with rfl | he
+      · exact hl _ List.mem_cons_self
+      · exact ih (fun e he => hl e (List.mem_cons_of_mem _ he)) e he
+
+theorem fnum_pushOther {g : GroupedQuantity Rat} {q : SQuantity Rat} (hg : g.AllNum P) (hq : q.value.AllNum P) :
+    (g.pushOther q).AllNum P := by
+  refine ⟨hg.1, hg.2.1, ?_, hg.2.2.2⟩
+  intro x hx
+  simp only [GroupedQuantity.pushOther, List.mem_append, List.mem_singleton] at hx
+  rcases hx with hx | rfl
+  · exact hg.2.2.1 x hx
+  · exact hq
+
+theorem fnum_setKnown {g : GroupedQuantity Rat} {q : SQuantity Rat} (pq : PhysQ) (hg : g.AllNum P)
+    (hq : q.value.AllNum P) : (g.setKnown pq q).AllNum P := by
+  refine ⟨?_, hg.2.1, hg.2.2.1, hg.2.2.2⟩
+  intro pq' x hx
+  simp only [GroupedQuantity.setKnown] at hx
+  split at hx
+  · simp only [Option.some.injEq] at hx; subst hx; exact hq
+  · exact hg.1 pq' x hx
+
+theorem fnum_add (hreg : ∀ x, P (.regular x)) {g : GroupedQuantity Rat} {q : SQuantity Rat} (hg : g.AllNum P)
+    (hq : q.value.AllNum P) : (GroupedQuantity.add c g q).AllNum P := by
+  unfold GroupedQuantity.add
+  split
+  · exact fnum_pushOther hg hq
+  · split
+    · split
+      · split
+        · rename_i n hn
+          refine ⟨hg.1, hg.2.1, hg.2.2.1, ?_⟩
+          intro x hx
+          simp only [Option.some.injEq] at hx
+          subst hx
+          exact fnum_addTo hreg hn
+        · exact fnum_pushOther hg hq
+      · refine ⟨hg.1, hg.2.1, hg.2.2.1, ?_⟩
+        intro x hx
+        simp only [Option.some.injEq] at hx
+        subst hx
+        exact hq
+    · split
+      · split
+        · split
+          · rename_i n hn
+            exact fnum_setKnown _ hg (fnum_addTo hreg hn)
+          · exact fnum_pushOther hg hq
+        · exact fnum_setKnown _ hg hq
+      · split
+        · split
+          · rename_i n hn
+            refine ⟨hg.1, ?_, hg.2.2.1, hg.2.2.2⟩
+            exact fnum_replaceUnknown _ _ _ hg.2.1 (fnum_addTo hreg hn)
+          · exact fnum_pushOther hg hq
+        · refine ⟨hg.1, ?_, hg.2.2.1, hg.2.2.2⟩
+          intro e he
+          simp only [List.mem_append, List.mem_singleton] at he
+          rcases he with he | rfl
+          · exact hg.2.1 e he
+          · exact hq
+
+theorem fnum_addAll (hreg : ∀ x, P (.regular x)) (qs : List (SQuantity Rat)) (g : GroupedQuantity Rat)
+    (hg : g.AllNum P) (hqs : ∀ q ∈ qs, q.value.AllNum P) : (GroupedQuantity.addAll c g qs).AllNum P := by
+  induction qs generalizing g with
+  | nil => exact hg
+  | cons q rest ih =>
+    simp only [GroupedQuantity.addAll, List.foldl_cons]
+    exact ih _ (fnum_add hreg hg (hqs q List.mem_cons_self)) (fun x hx => hqs x (List.mem_cons_of_mem _ hx))
+
+theorem fnum_empty : (GroupedQuantity.empty (α := Rat)).AllNum P := by
+  refine ⟨?_, ?_, ?_, ?_⟩ <;> intros <;> simp_all [GroupedQuantity.empty]
+
+theorem fnum_iter_of_allNum (ord : MapOrder Rat) (hord : ord.IsPerm) {g : GroupedQuantity Rat} (hg : g.AllNum P) :
+    ∀ q ∈ g.iter ord, q.value.AllNum P := by
+  intro q hq
+  simp only [GroupedQuantity.iter, GroupedQuantity.knownList, List.mem_append, List.mem_filterMap, List.mem_map,
+    Option.mem_toList] at hq
+  rcases hq with ((⟨pq, _, hpq⟩ | ⟨e, he, rfl⟩) | hq) | hq
+  · exact hg.1 pq q hpq
+  · exact hg.2.1 e ((hord g.unknown).subset he)
+  · exact hg.2.2.1 q hq
+  · exact hg.2.2.2 q hq
+
 end Cook
